@@ -12,6 +12,8 @@ import (
 	"encoding/json"
 	"errors"
 	"fmt"
+	"io"
+	"log/slog"
 	"os"
 	"path/filepath"
 	"sort"
@@ -27,7 +29,13 @@ import (
 	"verif/harness/internal/hx"
 )
 
-func init() { hx.Register("c18", func() hx.Property { return &c18{} }) }
+func init() {
+	hx.Register("c18", func() hx.Property {
+		// loadIndex warns about every entry it skips; thousands of skipped entries are generated
+		slog.SetDefault(slog.New(slog.NewTextHandler(io.Discard, nil)))
+		return &c18{}
+	})
+}
 
 type c18 struct{}
 
